@@ -147,6 +147,12 @@ fn alphabet(quick: bool, seed: u64) -> Vec<Val> {
         int(8),
         int(32),
         atom("2.5", Cell::Real(2.5)),
+        // a value that is not equal to itself
+        atom("0.0 0.0 rem", Cell::Real({
+            // the bits the division itself produces (not the constant f64::NAN, whose sign may differ)
+            let z = std::hint::black_box(0.0f64);
+            z % z
+        })),
         strv("10"),
         atom("|4142|", Cell::Bitstr(Xbitstr::from(vec![0x41u8, 0x42]))),
         vecv(vec![int(2), int(1)]),
@@ -625,6 +631,16 @@ fn sweep(cfg: &Cfg, rep: &Reporter, ev_: &mut Evidence, targets: &[Target]) {
                         }
                     }
                 }
+                // ---- one tagged value in two positions (`dup`: both arguments are the same handle)
+                if k >= 2 && tuple[k - 1].src == tuple[k - 2].src {
+                    for tm in tms.iter().filter(|t| t.name == "k:v" || (t.is_fmt && !tg.fmt_withheld)) {
+                        let shared = tagged(tuple[k - 1], tm);
+                        let mut vals: Vec<Val> = tuple.iter().map(|v| (*v).clone()).collect();
+                        vals[k - 1] = shared.clone();
+                        vals[k - 2] = shared.clone();
+                        run_variant(vals, format!("arg1+arg2:same-handle{}", if tm.is_fmt { ":fmt" } else { "" }), tm, "the two top arguments are one tagged value (as after dup)", &mut st);
+                    }
+                }
                 // ---- tags one level down
                 for i in 0..k {
                     for tm in tms.iter().filter(|t| t.name == "k:v" || t.is_fmt) {
@@ -734,7 +750,8 @@ fn tag_word_model(cfg: &Cfg, rep: &Reporter, ev_: &mut Evidence, mixed: bool) {
     let n_alpha = alphabet(cfg.quick(), cfg.seed).len();
     let n_tm = tag_maps().len();
     let nkeys: usize = if mixed { 4 } else { 3 };
-    const NVALS: usize = 2;
+    // two of the values are equal to each other but carry different tags, a third is the same number bare
+    const NVALS: usize = 4;
     let mut ops: Vec<TOp> = vec![];
     for i in 0..n_tm {
         ops.push(TOp::With(i));
@@ -761,7 +778,7 @@ fn tag_word_model(cfg: &Cfg, rep: &Reporter, ev_: &mut Evidence, mixed: bool) {
         let mut keys: Vec<Val> = vec![strv("k"), strv("z"), strv("#fmt"), int(1)];
         keys.truncate(nkeys);
         let (mut n_resync, mut n_coll_obs, mut n_cut) = (0u64, 0u64, 0u64);
-        let vals: Vec<Val> = vec![strv("w"), tagged(&int(5), &tms[1])];
+        let vals: Vec<Val> = vec![strv("w"), tagged(&int(5), &tms[1]), int(5), tagged(&int(5), &tms[3])];
         let (mut n_seq, mut n_steps, mut n_evals) = (0u64, 0u64, 0u64);
         let mut per_op: BTreeMap<String, u64> = BTreeMap::new();
         while let Some(r) = pull() {
@@ -857,7 +874,7 @@ fn tag_word_model(cfg: &Cfg, rep: &Reporter, ev_: &mut Evidence, mixed: bool) {
                         // the attached map as it is now (read through the Rust API, not through a word)
                         let actual: Vec<(Cell, Cell)> = cur.tags().map(|t| t.iter().map(|(k, v)| (k.clone(), v.clone())).collect()).unwrap_or_default();
                         let wanted: Vec<(Cell, Cell)> = model.clone().unwrap_or_default();
-                        let agree = actual.len() == wanted.len() && wanted.iter().all(|(k, v)| actual.iter().any(|(kk, vv)| kk == k && vv == v));
+                        let agree = actual.len() == wanted.len() && wanted.iter().all(|(k, v)| actual.iter().any(|(kk, vv)| kk == k && vv == v && render(vv) == render(v)));
                         if !agree {
                             let op_key_type = match op {
                                 TOp::Insert(k, _) | TOp::Remove(k) => Some(keys[*k].cell.value().type_name()),
@@ -893,9 +910,25 @@ fn tag_word_model(cfg: &Cfg, rep: &Reporter, ev_: &mut Evidence, mixed: bool) {
                         rep.report_w(&key, wt(weight_base + p.len() as u64, &p), || jo(vec![("kind", js("tag-words")), ("program", js(p.clone())), ("after", js(word.clone())), ("observer", js(observer)), ("expected", js(expected)), ("observed", js(observed))]));
                     };
                     // value unchanged
-                    if render(cur.value()) != bare || cur != v0.cell {
+                    if render(cur.value()) != bare || !eq_cells(&cur, &v0.cell) {
                         report("value", false, bare.clone(), render(&cur), "");
                         failed = true;
+                    }
+                    // the same tagged value when it becomes code: held by a constant, and left by a meta
+                        // block inside a definition (the compiler turns it into a load instruction)
+                    if !tainted && !failed {
+                        for (pname, psrc, bottom) in [("constant", format!("#( {} const c13k #) c13k", program), false), ("meta-block-result", format!(": c13w #( {} #) ; c13w", program), true)] {
+                            let mut xs = base.clone();
+                            n_evals += 1;
+                            let r = guarded(|| xs.eval(&psrc));
+                            let got = if bottom { xs.data_depth().checked_sub(1).and_then(|i| xs.get_data(i)) } else { xs.get_data(0) };
+                            let same = matches!(r, Ok(Ok(()))) && got.map(|g| render(g) == render(&cur)).unwrap_or(false);
+                            if !same {
+                                let obs = format!("{:?} {}", r.as_ref().map(|x| x.as_ref().map_err(err_kind)), got.map(render).unwrap_or_default());
+                                report(&format!("as-code:{}", pname), false, render(&cur), obs, &format!("   -- written as `{}`", psrc));
+                                failed = true;
+                            }
+                        }
                     }
                     // get-tag for every key
                     for k in &keys {
@@ -907,7 +940,7 @@ fn tag_word_model(cfg: &Cfg, rep: &Reporter, ev_: &mut Evidence, mixed: bool) {
                         let want = entries.iter().find(|(kk, _)| *kk == k.cell).map(|(_, v)| v.clone()).unwrap_or(Cell::Nil);
                         let got = if matches!(r, Ok(Ok(()))) && xs.data_depth() == 1 { Some(xs.get_data(0).unwrap().clone()) } else { None };
                         let ok = match &got {
-                            Some(g) => (matches!(want, Cell::Nil) && matches!(g, Cell::Nil)) || (!matches!(want, Cell::Nil) && g == &want && !matches!(g, Cell::Nil)),
+                            Some(g) => (matches!(want, Cell::Nil) && matches!(g, Cell::Nil)) || (!matches!(want, Cell::Nil) && g == &want && render(g) == render(&want) && !matches!(g, Cell::Nil)),
                             None => false,
                         };
                         if !ok {
@@ -933,7 +966,7 @@ fn tag_word_model(cfg: &Cfg, rep: &Reporter, ev_: &mut Evidence, mixed: bool) {
                             (Some(_), None) => false,
                             // an attached map that is empty may show as nil or as `{ }`
                             (Some(Cell::Nil), Some(e)) => e.is_empty(),
-                            (Some(Cell::Map(m)), Some(e)) => m.size() == e.len() && m.iter().all(|(k, v)| e.iter().any(|(kk, vv)| kk == k && vv == v)),
+                            (Some(Cell::Map(m)), Some(e)) => m.size() == e.len() && m.iter().all(|(k, v)| e.iter().any(|(kk, vv)| kk == k && vv == v && render(vv) == render(v))),
                             (Some(_), Some(_)) => false,
                         };
                         if !ok {
